@@ -393,18 +393,19 @@ def ready_without_wake(sc):
     return None
 
 
-def oracle_ready_without_wake(rep, tier, seed, profiles=("mixed", "flow", "bp", "recv", "reset", "pushlimit", "queue", "shutdown"), name="ready-without-wake"):
+def oracle_ready_without_wake(rep, tier, seed, profiles=("mixed", "flow", "bp", "recv", "reset", "pushlimit", "queue", "shutdown"), name="ready-without-wake",
+                              per=None, role="both"):
     """plain driver scripts (named wakers of the deterministic driver): a parked poll that is later Ready was woken in between;
     the committed regression replays run first"""
     import glob
-    per = 40 if tier == "quick" else 600
+    per = per or (40 if tier == "quick" else 600)
     scs = []
     for path in sorted(glob.glob(os.path.join(common.VERIF, "corpus", "conn", "c06_*.json"))):
         rc, out = common.run_harness("conn", ["--replay", path], timeout=120)
         got, _ = sendflow.load_scenarios(out)
         scs.extend(got)
     for pi, prof in enumerate(profiles):
-        got, _ = sendflow.gen_scenarios(seed * 8191 + 29 * pi + 7, per, 130, prof, snap=False)
+        got, _ = sendflow.gen_scenarios(seed * 8191 + 29 * pi + 7, per, 130, prof, role=role, snap=False)
         scs.extend(got)
     n_viol = 0
     polls = 0
